@@ -37,8 +37,9 @@ def jobs(tier):
             js.append(Job(name=f"fop-{k}-{TI[ft]}", src="../C01/fop.c", group="C02.2 SSE arithmetic and comparison", defs={"KIND": k, "FT": str(ft)},
                           tier="quick" if ((ft == 12 or k in ("ND_LT", "ND_EQ", "ND_ADD", "ND_NOT")) and k not in ("ND_MUL", "ND_DIV")) else "thorough",
                           sample=f"gen_expr({k}) on {TI[ft]} operands, all bit patterns", **CG))
-    for k in ("ND_EQ", "ND_NE", "ND_LT", "ND_LE", "ND_NOT"):
-        js.append(Job(name=f"fopl-{k}", src="../C01/fopl.c", group="C02.2 x87 comparison", defs={"KIND": k}, tier="quick" if k in ("ND_EQ", "ND_NE", "ND_LT") else "thorough",
+    for k in ("ND_EQ", "ND_NE", "ND_LT", "ND_LE", "ND_NOT", "ND_ADD", "ND_SUB", "ND_MUL", "ND_DIV"):
+        js.append(Job(name=f"fopl-{k}", src="../C01/fopl.c", group="C02.2 x87 comparison and arithmetic", defs={"KIND": k}, tier="quick" if k in ("ND_EQ", "ND_NE", "ND_LT", "ND_SUB", "ND_DIV") else "thorough",
+                      bounded=("8-bit operand magnitudes" if k in ("ND_MUL", "ND_DIV") else None),
                       sample=f"gen_expr({k}) on long double operands: every integral value or a NaN", **CG))
     for k in ("ND_ADD", "ND_SUB", "ND_MUL", "ND_DIV", "ND_EQ", "ND_LT", "ND_COND"):
         js.append(Job(name=f"typingf-{k}", src="../C01/typing.c", group="C02.6 floating rank", defs={"KIND": k, "TMAX": "12"}, units=["parse.c"], mode="plain",
